@@ -20,13 +20,13 @@ RULE = ('Complete enumeration of the finite domains, dumped from the real tables
         'complement is an involution that fixes S, W, N, -) are checked on the dumped values.  The same dump is repeated under '
         'Miri (undefined-behaviour interpreter).  Uses through the command line: one k-mer observed with every non-empty '
         'subset of middle bases in every order (64 orderings) through `ska build` (also with self-complementary arms, where the stored code is that of the set closed under complement), and `ska map` (plain, --ambig-mask, --repeat-mask; 64- and 128-bit k) through every code on the '
-        'reverse strand (alone, and again on the other strand further along the reference), and `ska distance --allow-ambiguous` on tables holding every code in 2..7 samples, compared with 1 - sum p_a p_b for uniform weights (N without weight; rows constant over all samples left out).  Non-trivial: a table cell / function value whose expected value is not the default; distinct = cell.')
+        'reverse strand (alone, and again on the other strand further along the reference), and `ska distance --allow-ambiguous [--min-freq f]` on tables holding every code in 2..7 samples, compared with 1 - sum p_a p_b for uniform weights (N without weight; rows constant over all samples left out).  Non-trivial: a table cell / function value whose expected value is not the default; distinct = cell.')
 ASSUMPTIONS = ['for U/u the complement table may give A or - (the statement does not cover it)',
                'IUPAC letter sets as in vlib/model.py SETS']
 REQUIRED = {t: ['cells:IUPAC', 'cells:RC', 'cells:AMBIG', 'cells:PROB', 'laws_checked', 'orderings_through_build',
                 'codes_through_map_reverse_strand', 'codes_through_map_inverted_repeat', 'miri_dump_identical',
                 'weights_through_distance', 'dist_pairs_with_identical_ambiguous_codes', 'orderings_with_self_complementary_arms',
-                'mask_flags_through_map_128bit', 'mask_flags_through_map_64bit'] for t in ('quick', 'thorough')}
+                'mask_flags_through_map_128bit', 'mask_flags_through_map_64bit', 'weights_through_distance_with_min_freq'] for t in ('quick', 'thorough')}
 LETTERS = [c for c in M.CODES] + [c.lower() for c in M.CODES]
 
 
@@ -281,7 +281,14 @@ def run_case(desc, ctx):
             res.count('table_readout_mismatch(C01)')
             return res
         thr = rng.choice([1, 2, 4])
-        p = ctx.sh(ctx.ska, 'distance', ctx.path('d.skf'), '--allow-ambiguous', '--min-freq', '0', '--threads', thr)
+        # with a frequency threshold as well: rows present (any symbol counts) in fewer than ceil(f*n) samples drop out, the codes
+        # of the others keep their weights
+        mf = rng.choice(['0', '0'] + [('%.4f' % (j / ns)).rstrip('0').rstrip('.') for j in range(1, ns + 1) if (j * 10000) % ns == 0])
+        thr_rows = M.ceil_thr(mf, ns)
+        rows = {a: r for a, r in rows.items() if sum(1 for x in r if x != '-') >= thr_rows}
+        if thr_rows >= 1:
+            res.count('weights_through_distance_with_min_freq')
+        p = ctx.sh(ctx.ska, 'distance', ctx.path('d.skf'), '--allow-ambiguous', '--min-freq', mf, '--threads', thr)
         res.evals += 1
         if p.returncode != 0:
             res.violate('C15:dist-failed', 'distance failed: %s' % p.stderr[-150:], {'rows': rows})
@@ -303,7 +310,7 @@ def run_case(desc, ctx):
                     if any(r[i] == r[j] and M.is_ambig(r[i]) and r[i] != 'N' for r in rows.values()):
                         res.count('dist_pairs_with_identical_ambiguous_codes')
         if bad:
-            res.violate('C15:dist', 'k=%d ns=%d threads=%d: %s' % (k, ns, thr, '; '.join(bad[:2])), {'rows': rows, 'out': p.stdout})
+            res.violate('C15:dist', 'k=%d ns=%d threads=%d --min-freq %s: %s' % (k, ns, thr, mf, '; '.join(bad[:2])), {'rows': rows, 'out': p.stdout})
         else:
             res.count('weights_through_distance', npairs)
             res.nontrivial.append(fingerprint([k, rows]))
